@@ -122,6 +122,8 @@ class SampleCounting(Family):
                 if tier == 'quick' and kind == 'huge' and tol not in ('0%', '10%'):
                     continue
                 for form in ('scale', 'mscale'):
+                    if tier == 'quick' and kind == 'huge' and form == 'scale':
+                        continue
                     for (n, k) in ((1, 0), (2, 1)) + (((2, 0), (3, 1)) if tier == 'thorough' else ()):
                         yield (kind, form, tol, n, k, 1)
 
@@ -347,6 +349,10 @@ class Numerical(Family):
                 if a in NUM_REL_ONLY and not isinstance(tol, str):
                     continue
                 if tier == 'quick' and tols.index(tol) >= 13 and a in (1, 2):
+                    continue
+                if tier == 'quick' and a == 4 and tol not in (0, '0%', '10%', '0.005%', 1e-7, '250%'):
+                    continue
+                if tier == 'quick' and a == 5 and tol not in ('0%', '10%', '0.005%', '100%'):
                     continue
                 for c in ((1, 0.5) if (a < 4 and tols.index(tol) < 13) else (1,)):
                     for j in range(9):
@@ -585,6 +591,8 @@ class ArrayNorms(Family):
                 continue
             for tol in tols:
                 for (n, k) in nks:
+                    if tier == 'quick' and (n, k) == (2, 0) and tol != 0:
+                        continue
                     yield (form, tol, n, k)
 
     def check(self, case):
@@ -743,6 +751,8 @@ class SameSample(Family):
         for form in SAME_FORMS:
             for tol in (0, 0.1) + (('1%',) if tier == 'thorough' else ()):
                 for (n, k) in nks:
+                    if tier == 'quick' and (n, k) == (1, 0) and tol != 0:
+                        continue
                     yield (form, tol, n, k)
 
     def check(self, case):
@@ -919,6 +929,8 @@ class AnswerCredit(Family):
                 if tier == 'quick' and cls == 'M' and ci not in (1, 5):
                     continue
                 for (n, k) in ((1, 0), (2, 0), (2, 1)):
+                    if tier == 'quick' and (n, k) == (2, 0) and ci >= 2:
+                        continue
                     yield (cls, ci, n, k)
 
     def check(self, case):
